@@ -5,11 +5,11 @@ import os,re,sys,json,subprocess
 from concurrent.futures import ThreadPoolExecutor
 os.chdir(os.path.dirname(os.path.abspath(__file__))+'/..')
 J=int(sys.argv[1]) if len(sys.argv)>1 else 3
-M=[('cmd/rdpgw/web/session.go','C04 C12 C13 C10'),('cmd/rdpgw/transport/','C08 C06 C16 C17 C10'),
- ('cmd/rdpgw/protocol/tunnel.go','C10 C09 C06'),('cmd/rdpgw/protocol/gateway.go','C11 C10 C07'),
- ('cmd/rdpgw/identity/','C13 C04 C12'),('cmd/auth/','C14 C10'),('cmd/rdpgw/web/token.go','C15 C10'),
+M=[('cmd/rdpgw/web/session.go','C04 C12 C13 C10'),('cmd/rdpgw/transport/','C08 C06 C16 C17 C10 C02'),
+ ('cmd/rdpgw/protocol/tunnel.go','C10 C09 C06 C17'),('cmd/rdpgw/protocol/gateway.go','C11 C10 C07 C17'),
+ ('cmd/rdpgw/identity/','C13 C04 C12'),('cmd/auth/','C14 C10 C05'),('cmd/rdpgw/web/token.go','C15 C10'),
  ('cmd/rdpgw/security/jwt.go','C15 C10 C16'),('cmd/rdpgw/protocol/process.go','C16 C17 C10'),
- ('cmd/rdpgw/protocol/common.go','C06 C08 C16 C17 C07 C09'),('cmd/rdpgw/web/web.go','C18 C10'),
+ ('cmd/rdpgw/protocol/common.go','C06 C08 C16 C17 C07 C09 C02'),('cmd/rdpgw/web/web.go','C18 C10'),
  ('cmd/rdpgw/main.go','C18 C10 C15'),('cmd/rdpgw/config/','C18 C15'),('cmd/rdpgw/security/basic.go','C16'),
  ('cmd/rdpgw/web/','C10'),('cmd/rdpgw/kdcproxy/','C10')]
 known=json.load(open('refactors/KNOWN_ALARMS.json'))
@@ -21,6 +21,8 @@ def one(n):
     for f in files:
         for pre,ps in M:
             if f.startswith(pre): props|=set(ps.split())
+    only=os.environ.get('ONLY')
+    if only: props&=set(only.split())
     if not props: return n,[],''
     e=dict(env,PATCH_PROPS=' '.join(sorted(props)))
     out=subprocess.run(['bin/rdpgwlint','-patch',p,'-repo','/repo'],capture_output=True,text=True,env=e).stdout.strip().split('\n')[-1]
